@@ -235,6 +235,28 @@ class TlsConn:
         self.cur[d] = R.DirState(self.suite, self.ver, *R.tls13_traffic_keys(self.suite, nxt), None, rnd=self.g)
         return r
 
+    def renegotiate(self):
+        """TLS <= 1.2 renegotiation (RFC 5746): a second full handshake whose every record -- ChangeCipherSpec included -- travels under the
+        CURRENT cipher state; after each side's ChangeCipherSpec that side protects with keys of a new master secret / new randoms
+        (a second CLIENT_RANDOM line appears in the key log)."""
+        assert self.ver != R.TLS13
+        g, s, ver = self.g, self.suite, self.ver
+        cr2, sr2, ms2 = g(32), g(32), g(48)
+        self.keylog += R.keylog_lines(ver, cr2, ms=ms2)
+        kb = R.key_block(s, ver, ms2, cr2, sr2)
+        new = {"c": R.DirState(s, ver, kb["ckey"], kb["civ"], kb["cmac"], self.etm, rnd=g),
+               "s": R.DirState(s, ver, kb["skey"], kb["siv"], kb["smac"], self.etm, rnd=g)}
+        fin_len = 36 if ver == R.SSL30 else 12
+        self._enc("c", 22, R.client_hello(ver, cr2, b"", [s.code], **self._exts("c")), "RCH")
+        self._enc("s", 22, R.server_hello(ver, sr2, g(32), s.code, **self._exts("s")) + R.hs_msg(11, (103).to_bytes(3, "big") + (100).to_bytes(3, "big") + g(100)) + R.hs_msg(14, b""), "RSH")
+        self._enc("c", 22, R.hs_msg(16, g(66)), "RHS")
+        self._enc("c", 20, b"\x01", "RCCS")
+        self.cur["c"] = new["c"]
+        self._enc("c", 22, R.hs_msg(20, g(fin_len)), "RFIN")
+        self._enc("s", 20, b"\x01", "RCCS")
+        self.cur["s"] = new["s"]
+        self._enc("s", 22, R.hs_msg(20, g(fin_len)), "RFIN")
+
     def alert(self, d, level=1, desc=0):
         if self.cur[d] is not None:
             return self._enc(d, 21, bytes([level, desc]), "ALERT")
